@@ -231,7 +231,7 @@ class ExprMixin:
         fq = self.resolve_global_function(name)
         if fq:
             return SV("func", ("repo", fq))
-        if name in ("len", "bool", "isinstance", "id", "hash", "callable", "getattr", "hasattr", "enumerate", "reversed", "range", "filter", "sorted", "min", "max", "iter", "next", "print", "type"):
+        if name in ("len", "bool", "isinstance", "id", "hash", "callable", "getattr", "hasattr", "enumerate", "reversed", "range", "filter", "sorted", "min", "max", "iter", "next", "print", "type", "issubclass"):
             return SV("func", ("builtin", name))
         return None
 
